@@ -309,6 +309,112 @@ def check_eigh_solve(prog, ctx):
     ctx.minimum(rid, 10, "eigh (4) + solve (6)")
 
 
+class NumVec:
+    """a small concrete vector of representative pivot values (zero, positive, negative): elementwise arithmetic only"""
+
+    _abstract = True
+
+    def __init__(self, vals):
+        self.vals = tuple(vals)
+        self.term = ("numvec", self.vals)
+        self.shape = (len(self.vals),)
+
+    def _el(self, o, fn):
+        if isinstance(o, NumVec):
+            return NumVec(fn(a, b) for a, b in zip(self.vals, o.vals))
+        return NumVec(fn(a, o) for a in self.vals)
+
+    def __add__(self, o):
+        return self._el(o, lambda a, b: a + b)
+
+    __radd__ = __add__
+
+    def __sub__(self, o):
+        return self._el(o, lambda a, b: a - b)
+
+    def __mul__(self, o):
+        return self._el(o, lambda a, b: a * b)
+
+    __rmul__ = __mul__
+
+    def __truediv__(self, o):
+        return self._el(o, lambda a, b: a / b)
+
+    def __neg__(self):
+        return NumVec(-a for a in self.vals)
+
+    def __eq__(self, o):
+        return self._el(o, lambda a, b: a == b)
+
+    def __ne__(self, o):
+        return self._el(o, lambda a, b: a != b)
+
+    def __hash__(self):
+        return hash(self.vals)
+
+    def reshape(self, *a):
+        return self
+
+
+def check_stabilized(prog, ctx):
+    """R11.4: the sign correction of the stabilised QR. The closure returned by _get_qr_fn(backend, stabilized=True) is
+    evaluated with the backend's qr returning tokens and the diagonal of R replaced by the representative pivots (0, +2, -3):
+    the factor applied to Q's columns and R's rows must be +1, +1, -1 - in particular a zero pivot must not annihilate a column
+    of Q or a row of R."""
+    from fractions import Fraction
+
+    from engine.absarray import STok, shaped_evaluator, shaped_libfn
+    from engine.minieval import Closure, Raised, Unsupported
+
+    rid = "R11.4"
+    f = prog.func("symmray.linalg:_get_qr_fn")
+    pivots = (Fraction(0), Fraction(2), Fraction(-3))
+    base = shaped_libfn()
+
+    def get(backend, name):
+        short = name.split(".")[-1]
+        if short == "diag":
+            return lambda r: NumVec(pivots)
+        if short == "abs":
+            return lambda v: NumVec(abs(a) for a in v.vals) if isinstance(v, NumVec) else base(backend, name)(v)
+        if short == "sign":
+            return lambda v: NumVec((a > 0) - (a < 0) for a in v.vals) if isinstance(v, NumVec) else base(backend, name)(v)
+        if short == "reshape":
+            return lambda v, shape: v if isinstance(v, NumVec) else base(backend, name)(v, shape)
+        if short in ("where", "maximum", "minimum", "copysign", "sqrt", "conj"):
+            raise AnalysisError(f"stabilised QR uses backend function {short!r}: extend rules/c11_bonds.check_stabilized")
+        return base(backend, name)
+
+    ev = shaped_evaluator(prog, extra={"ar.get_lib_fn": get})
+    try:
+        qr_fn = ev.call(f, ["tok"], {"stabilized": True})
+        x = STok(("x",), (3, 3))
+        res = ev.apply(qr_fn, [x], {}, f)
+    except Unsupported as e:
+        raise AnalysisError(f"_get_qr_fn outside the evaluable sub-language: {e}")
+    except (Raised, KeyError, TypeError, AttributeError, ValueError, IndexError, ZeroDivisionError) as e:
+        ctx.check(False, rid, f, f.node, "runs", f"the stabilised QR closure evaluates on representative pivots — {type(e).__name__}: {getattr(e, 'what', e)}")
+        return
+    ok_shape = isinstance(res, tuple) and len(res) == 2 and all(isinstance(t, STok) for t in res)
+    ctx.need(ok_shape, "stabilised QR: the closure does not return (q, r) tokens")
+
+    def factor(t):
+        term = t.term
+        if isinstance(term, tuple) and term[0] == "mul" and isinstance(term[2], tuple) and term[2][0] == "numvec":
+            return term[2][1]
+        return None
+
+    fq, fr = factor(res[0]), factor(res[1])
+    want = (1, 1, -1)
+    ctx.check(fq is not None and tuple(fq) == want, rid, f, f.node, "q factor",
+              f"stabilised QR: Q's columns are multiplied by +1 for zero and positive pivots and -1 for negative ones (pivots {tuple(map(str, pivots))} "
+              f"-> factor {None if fq is None else tuple(map(str, fq))}); a zero factor would annihilate a column of Q")
+    ctx.check(fr is not None and tuple(fr) == want, rid, f, f.node, "r factor",
+              f"stabilised QR: R's rows are multiplied by the same unit factor (-> {None if fr is None else tuple(map(str, fr))}), "
+              f"so the diagonal becomes non-negative and q @ r is unchanged")
+    ctx.minimum(rid, 2, "q and r factors")
+
+
 def run(prog, ctx):
     from rules.c03_convention import check_convention
     from rules.c13_trunc import check_together
@@ -317,7 +423,9 @@ def run(prog, ctx):
     ctx.rule("R11.3", "eigh: identity-charge guard and keys; solve: row-charge pairing, charge b - a, conjugate column index")
     ctx.rule("R03.1", "fermionic wrappers follow the single pair-sign convention (shared with C03)")
     ctx.rule("R13.4", "the truncated variant truncates and re-indexes U, s, VH together (shared with C13)")
+    ctx.rule("R11.4", "stabilised QR: the sign correction is +1 / +1 / -1 on zero / positive / negative pivots, applied to Q's columns and R's rows")
     check_factor_bonds(prog, ctx)
     check_eigh_solve(prog, ctx)
+    check_stabilized(prog, ctx)
     check_convention(prog, ctx)
     check_together(prog, ctx)
